@@ -31,9 +31,15 @@ pub(crate) fn native_base(n: usize, pc: usize) -> BaseBranch {
     BaseBranch::new(std::sync::Arc::new(builder.finish()))
 }
 
+/// the tracker's op list (a private field; this module is a child of branch_ops)
+#[cfg(test)]
+pub(crate) fn native_ops_of(t: &BranchOpsTracker) -> &[BranchOp] {
+    &t.ops
+}
+
 /// the (separator, page number) pairs an op list stands for
 #[cfg(test)]
-fn native_expand(base: &BaseBranch, ops: &[BranchOp]) -> Vec<(Key, u32)> {
+pub(crate) fn native_expand(base: &BaseBranch, ops: &[BranchOp]) -> Vec<(Key, u32)> {
     let mut out = Vec::new();
     for op in ops {
         match op {
